@@ -250,13 +250,208 @@ Definition subset_model (F : afont) (gids unis : list Z) (flags : Z) : outcome :
       else Out nout gl None cm'
   end.
 
+(* ---- HVAR / VVAR delta-set index maps (klippa/src/hvar.rs IndexMapSubsetPlan::{new,remap},
+        HvarVvarSubsetPlan::new, serialize_index_maps; klippa/src/variations.rs DeltaSetIndexMap::subset) ---- *)
+(* one table: number of ItemVariationData subtables and, per index map (HVAR: advance, lsb, rsb;
+   VVAR: advance, tsb, bsb, vorg), None = null offset, or (outer bit count of the original entry format,
+   (outer, inner) of every glyph 0..n-1 as DeltaSetIndexMap::get returns it) *)
+Record mvar := mkMvar {
+  mv_ivd_count : Z;
+  mv_maps : list (option (Z * list (Z * Z)))
+}.
+
+Definition bit_len (v : Z) : Z := if v <=? 0 then 0 else Z.log2 v + 1.   (* 32 - leading_zeros *)
+
+(* IntSet / sorted IncBiMap as strictly ascending lists *)
+Fixpoint zinsert (x : Z) (l : list Z) : list Z :=
+  match l with
+  | [] => [x]
+  | y :: r => if x <? y then x :: l else if x =? y then l else y :: zinsert x r
+  end.
+Fixpoint set_nth {A} (l : list A) (k : nat) (f : A -> A) : list A :=
+  match l, k with
+  | [], _ => []
+  | x :: r, O => f x :: r
+  | x :: r, S k' => x :: set_nth r k' f
+  end.
+
+(* the value an index map gives an old glyph id (implicit identity when the map is absent) *)
+Definition im_val (m : option (Z * list (Z * Z))) (old : Z) : Z * Z :=
+  match m with
+  | Some (_, tbl) => match znth tbl old with Some v => v | None => (0, 0) end
+  | None => (Z.shiftr old 16, Z.land old 65535)
+  end.
+
+Record im_plan := mkPlan { ip_map_count : Z; ip_max_inners : list Z; ip_obc : Z }.
+
+Definition zz_eqb (a b : Z * Z) : bool := (fst a =? fst b) && (snd a =? snd b).
+
+(* map_count - 1: new gid of the first element of the maximal trailing run of equal values *)
+Fixpoint trailing_run (m : option (Z * list (Z * Z))) (rev_n2o : list (Z * Z)) (last_gid : Z)
+         (last_val : Z * Z) : Z :=
+  match rev_n2o with
+  | [] => last_gid
+  | (g, old) :: r => if zz_eqb (im_val m old) last_val then trailing_run m r g last_val else last_gid
+  end.
+
+(* IndexMapSubsetPlan::new, second loop.  State: outers seen (a set), max old inner per subtable (of this
+   plan), one inner set per ItemVariationData (shared by all plans) *)
+Fixpoint collect_used (m : option (Z * list (Z * Z))) (nvd : Z) (n2o : list (Z * Z)) (map_count : Z)
+         (st : list Z * list Z * list (list Z)) : list Z * list Z * list (list Z) :=
+  match n2o with
+  | [] => st
+  | (g, old) :: r =>
+      if map_count <=? g then st else                     (* break *)
+      let '(o, i) := im_val m old in
+      if nvd <=? o then st else                           (* outer >= max_inners.len(): break *)
+      let '(outers, maxs, sets) := st in
+      collect_used m nvd r map_count
+        (zinsert o outers,
+         set_nth maxs (Z.to_nat o) (fun x => Z.max x i),
+         set_nth sets (Z.to_nat o) (zinsert i))
+  end.
+
+(* IndexMapSubsetPlan::new.  None = panic (inner_sets[0] with no subtable at all) *)
+Definition plan_new (m : option (Z * list (Z * Z))) (bypass_empty : bool) (nvd : Z) (n2o : list (Z * Z))
+           (outers : list Z) (sets : list (list Z)) : option (im_plan * list Z * list (list Z)) :=
+  match m, bypass_empty with
+  | None, true => Some (mkPlan 0 [] 0, outers, sets)
+  | _, _ =>
+      let obc := match m with Some (b, _) => b | None => 6 end in
+      let maxs0 := map (fun _ => 0) (zrange nvd) in
+      match rev n2o with
+      | [] => Some (mkPlan 0 maxs0 obc, outers, sets)
+      | (g, old) :: r =>
+          let map_count := trailing_run m r g (im_val m old) + 1 in
+          match m with
+          | None =>
+              if nvd <=? 0 then None else
+              Some (mkPlan map_count (set_nth maxs0 0 (fun _ => Z.land old 65535)) obc,
+                    zinsert 0 outers,
+                    set_nth sets 0 (fun s => fold_left (fun s p => zinsert (Z.land (snd p) 65535) s) n2o s))
+          | Some _ =>
+              let '(outers', maxs, sets') := collect_used m nvd n2o map_count (outers, maxs0, sets) in
+              Some (mkPlan map_count maxs obc, outers', sets')
+          end
+      end
+  end.
+
+(* the plans of the maps after the first (bypass_empty = true) *)
+Fixpoint plans_new (ms : list (option (Z * list (Z * Z)))) (nvd : Z) (n2o : list (Z * Z))
+         (outers : list Z) (sets : list (list Z)) : option (list im_plan * list Z * list (list Z)) :=
+  match ms with
+  | [] => Some ([], outers, sets)
+  | m :: r =>
+      match plan_new m true nvd n2o outers sets with
+      | None => None
+      | Some (p, outers', sets') =>
+          match plans_new r nvd n2o outers' sets' with
+          | None => None
+          | Some (ps, o2, s2) => Some (p :: ps, o2, s2)
+          end
+      end
+  end.
+
+(* IndexMapSubsetPlan::remap, first loop: inner bit count = max over the subtables of the bits of the NEW
+   index of the plan's largest old inner index (at least 1) *)
+Definition inner_bit_count (p : im_plan) (inner_maps : list (list Z)) : Z :=
+  fold_left (fun acc mi =>
+               match snd mi with
+               | [] => acc
+               | _ => if fst mi =? 0 then acc
+                      else Z.max (bit_len (match index_of (fst mi) (snd mi) 0 with Some k => k | None => 0 end)) acc
+               end)
+            (combine (ip_max_inners p) inner_maps) 1.
+
+(* IndexMapSubsetPlan::remap, second loop: new gid -> (new outer, new inner); None = unwrap on None *)
+Definition remap_entries (m : option (Z * list (Z * Z))) (p : im_plan) (outers : list Z)
+           (inner_maps : list (list Z)) (n2o : list (Z * Z)) : option (list (Z * (Z * Z))) :=
+  all_some
+    (flat_map (fun ge =>
+                 if ip_map_count p <=? fst ge then [] else
+                 let v := im_val m (snd ge) in
+                 match znth inner_maps (fst v) with
+                 | None => []                                          (* continue *)
+                 | Some imap =>
+                     [match index_of (fst v) outers 0, index_of (snd v) imap 0 with
+                      | Some o', Some i' => Some (fst ge, (o', i'))
+                      | _, _ => None
+                      end]
+                 end) n2o).
+
+(* pack / unpack of one entry (unpack = read-fonts DeltaSetIndexMap::get) *)
+Definition im_pack (ibc o i : Z) : Z := Z.lor (Z.shiftl o ibc) i.
+Definition im_unpack (ibc v : Z) : Z * Z := (Z.shiftr v ibc, Z.land v (2 ^ ibc - 1)).
+
+(* DeltaSetIndexMap::subset.  Some None = no map written (identity plan);
+   Some (Some (entry format byte, mapCount, raw entry values)); None = Err (sanity check) *)
+Definition im_serialize (p : im_plan) (ibc : Z) (entries : list (Z * (Z * Z)))
+  : option (option (Z * Z * list Z)) :=
+  match entries with
+  | [] => Some None
+  | _ =>
+      let width := (ip_obc p + ibc + 7) / 8 in
+      if (0 <? ip_map_count p) && ((16 <? ibc) || (4 <? width)) then None
+      else Some (Some (Z.lor (Z.shiftl (width - 1) 4) (ibc - 1), ip_map_count p,
+                       map (fun i => match find (fun e => fst e =? i) entries with
+                                     | Some e => Z.land (im_pack ibc (fst (snd e)) (snd (snd e))) (2 ^ (8 * width) - 1)
+                                     | None => 0
+                                     end) (zrange (ip_map_count p))))
+  end.
+
+(* HvarVvarSubsetPlan::new + serialize_index_maps.  None = panic / table-level error (the table is then
+   missing from the subset and no case is emitted). *)
+Definition mvar_subset (mv : mvar) (retain : bool) (kept : list Z) : option (list (option (Z * Z * list Z))) :=
+  let nvd := mv_ivd_count mv in
+  let n2o := map (fun old => (match glyph_map retain kept old with Some g => g | None => 0 end, old)) kept in
+  let sets0 := map (fun _ => @nil Z) (zrange nvd) in
+  match mv_maps mv with
+  | [] => Some []
+  | m0 :: rest =>
+      match plan_new m0 false nvd n2o [] sets0 with
+      | None => None
+      | Some (p0, outers0, sets1) =>
+          (* adv_set: inner set of subtable 0 right after plan 0 when there is no advance map *)
+          let adv_set := match m0 with
+                         | None => match sets1 with s :: _ => s | [] => [] end
+                         | Some _ => []
+                         end in
+          match plans_new rest nvd n2o outers0 sets1 with
+          | None => None
+          | Some (ps, outers, sets) =>
+              let inner0 :=
+                match m0, retain with
+                | None, true => kept                                      (* retain_adv_map *)
+                | _, _ => adv_set ++ filter (fun x => negb (memz x adv_set))
+                                            (match sets with s :: _ => s | [] => [] end)
+                end in
+              let inner_maps := match sets with _ :: r => inner0 :: r | [] => [] end in
+              all_some
+                (map (fun mp =>
+                        let ibc := inner_bit_count (snd mp) inner_maps in
+                        match remap_entries (fst mp) (snd mp) outers inner_maps n2o with
+                        | None => None
+                        | Some es =>
+                            match fst mp, es with
+                            | None, _ :: _ => None      (* index_map.as_ref().unwrap() on a non-identity plan *)
+                            | _, _ => im_serialize (snd mp) ibc es
+                            end
+                        end)
+                     (combine (m0 :: rest) (p0 :: ps)))
+          end
+      end
+  end.
+
 (* ---- correspondence case format (written by harness/src/bin/c17.rs) ---- *)
 Inductive observed :=
 | OPanic | OErr | OUnreadable
 | OOut (num_glyphs : Z) (glyphs : option (list glyph)) (hmtx : option (Z * list (Z * Z)))
        (cmap : list (Z * Z)) (cmap4_multi : bool)
-       (cmap4 : option (list (Z * Z))).
-(* cmap  = what skrifa's Charmap says of the subset;
+       (cmap4 : option (list (Z * Z)))
+       (mvars : list (mvar * list (option (Z * Z * list Z)))).
+(* mvars = for HVAR / VVAR present in both fonts: the original's index maps and what the subset's index maps
+           say as raw bytes (entry format byte, mapCount, entry values);
+   cmap  = what skrifa's Charmap says of the subset;
    cmap4 = what the subset's format-4 subtables say when read directly (Cmap4::iter), given only when every
            format-4 subtable of the ORIGINAL lists exactly the BMP part of f_cmap: then the subset's format-4
            subtables must list exactly the BMP part of the (char, new gid) list - this is what ties the
@@ -287,7 +482,7 @@ Definition check_case (c : afont * (list Z * list Z * Z) * observed) : bool :=
   let '(F, (gids, unis, flags), obs) := c in
   match subset_model F gids unis flags, obs with
   | Panic, OPanic => true
-  | Out n gl hm cm, OOut n' gl' hm' cm' multi cm4 =>
+  | Out n gl hm cm, OOut n' gl' hm' cm' multi cm4 mvs =>
       (n =? n') && opt_eqb (list_eqb glyph_eqb) gl gl'
       && opt_eqb (fun a b => (fst a =? fst b) && list_eqb pair_eqb (snd a) (snd b)) hm hm'
       && (if multi then list_eqb Z.eqb (map fst cm) (map fst cm')   (* byte encoder defect: chars only *)
@@ -297,5 +492,12 @@ Definition check_case (c : afont * (list Z * list Z * Z) * observed) : bool :=
           | Some l => let bmp := filter (fun p => fst p <? 65536) cm in
                       if multi then list_eqb Z.eqb (map fst bmp) (map fst l) else list_eqb pair_eqb bmp l
           end)
+      && forallb (fun mo =>
+                    match mvar_subset (fst mo) (flag_retain flags) (kept_glyphs F gids unis) with
+                    | None => false
+                    | Some pred =>
+                        list_eqb (opt_eqb (fun a b => (fst (fst a) =? fst (fst b)) && (snd (fst a) =? snd (fst b))
+                                                      && list_eqb Z.eqb (snd a) (snd b))) pred (snd mo)
+                    end) mvs
   | _, _ => false
   end.
